@@ -155,7 +155,7 @@ CHECKS["C08"] = dict(
     text="Theorems about the Hexital model: a member on its own manager behaves exactly like the standalone indicator with the same "
          "manager configuration (values and exceptions); members sharing a manager never alter candle OHLCV/timestamps nor each "
          "other's entries (engine frame theorem, all 27 kinds); a member without helper series that shares a manager with any other "
-         "members has, candle by candle, the entries of its standalone twin (non-interference theorem); candle management ignores readings "
+         "members has, candle by candle, the entries of its standalone twin (non-interference theorem, also on a shared collapsing / filled / converted / trimmed manager); candle management ignores readings "
          "(collapse, fill, conversion and trimming of lists that agree up to readings agree again and raise alike), so along any program of "
          "append / calculate / purge / recalculate / calculate_index / remove_indicator / add_indicator the Hexital's managers agree with a "
          "bare dictionary of candle managers given the same appends; and in a Hexital without timeframe and lifespan of its own (HA and fill free) every "
@@ -195,7 +195,10 @@ CHECKS["C13"] = dict(
          "purge removes exactly the tree's entries. Read half: the _calculate_reading of each of the 14 classes without helper series "
          "depends only on OHLCV and the readings it names; non-interference theorem: for a top-level leaf B and any other indicators "
          "whose tree names B neither reads nor owns, B's entries are identical along every paired history (same appends, B calculating "
-         "on both sides, the others doing anything within their frame on one side), and calculate() raises on one side iff on the other. "
+         "on both sides, the others doing anything within their frame on one side), and calculate() raises on one side iff on the other; "
+         "the same with the candles going through any candle manager (collapsing timeframe, gap filling, Heikin-Ashi, lifespan in any "
+         "combination: mgr_append on both sides) - timestamps, values and B's entries agree candle by candle and the next append raises alike "
+         "(from a parametricity theorem: candle management respects any reflexive relation that implies equal values, clean values and tags). "
          "Tie: the Hexital model (two members, the operations aimed at one of them) run "
          "against hexital.Hexital on the same histories (check_hx). Falsifier: B alone vs with A in both orders, and purge/recalculate/"
          "remove of A at the end and in the middle of the stream, incl. targeted pairs (substring names, X / X_<suffix> names, helper "
